@@ -62,6 +62,7 @@ fn main() {
     if args.len() < 2 { eprintln!("usage: harness <cmd> ..."); std::process::exit(2); }
     let arg = |i: usize| -> &str { args.get(i).map(|s| s.as_str()).unwrap_or("") };
     let num = |i: usize, d: u64| -> u64 { args.get(i).and_then(|s| s.parse().ok()).unwrap_or(d) };
+    if arg(1) == "show-gen" { cmd_backend::cmd_show_gen(arg(2), num(3, 1), num(4, 0) as usize); return; }
     let mut out: Box<dyn std::io::Write> = match args.get(4) {
         Some(p) if p != "-" => Box::new(std::io::BufWriter::new(std::fs::File::create(p).expect("create out"))),
         _ => Box::new(std::io::BufWriter::new(std::io::stdout())),
